@@ -445,6 +445,24 @@ def r10_loaders_keep_every_entry(ctx):
             yield Ob('%s:%s entries are keyed by their own %s' % (mod, qual, keyname), ok, ctx.floc(fn, keys[0]), '' if ok else 'key is %s' % norm(keys[0].slice))
 
 
+def r11_designator_levels(ctx):
+    """a component is fetched by the designator it reports: segment_if.getnodebypath2 looks the element up by the
+    element index of the path and, in the element found, the component by the component index - each level with its
+    own part of the path"""
+    fn = ctx.func('map_if', 'segment_if.getnodebypath2')
+    calls = [c for c in A.calls_in(fn) if A.call_target(c)[1] in ('get_child_node_by_ordinal', 'get_child_node_by_idx') and c.args]
+    if len(calls) < 2:
+        raise AnalysisError('segment_if.getnodebypath2: the two child lookups were not found')
+    first = [c for c in calls if A.call_target(c)[0] == 'self']
+    second = [c for c in calls if A.call_target(c)[0] != 'self']
+    ok1 = len(first) == 1 and norm(first[0].args[0]).endswith('.ele_idx') or (len(first) == 1 and '.ele_idx' in norm(first[0].args[0]) and 'subele' not in norm(first[0].args[0]))
+    yield Ob('map_if:segment_if.getnodebypath2 element looked up by the element index', bool(ok1), ctx.floc(fn, first[0] if first else fn),
+             '' if ok1 else 'first lookup uses %s' % [norm(c.args[0]) for c in first])
+    ok2 = len(second) == 1 and 'subele_idx' in norm(second[0].args[0])
+    yield Ob('map_if:segment_if.getnodebypath2 component looked up by the component index', ok2, ctx.floc(fn, second[0] if second else fn),
+             '' if ok2 else 'the lookup inside the element uses `%s`: the component fetched is not the one the path names' % [norm(c.args[0]) for c in second])
+
+
 RULES = [
     Rule('C16.R1', 'index entries name existing well-formed maps; keys unambiguous; packaged', r1_index, floor=30),
     Rule('C16.R2', 'every data_ele / external code reference resolves; dataele lengths sane', r2_refs, floor=20000),
@@ -456,4 +474,5 @@ RULES = [
     Rule('C16.R8', 'model field names = constructor field names; accessor pairs read one name', r8_model_fields, floor=6),
     Rule('C16.R9', 'loaded map nodes are read-only outside their constructors (only parameterless path caches)', r9_nodes_immutable, floor=2),
     Rule('C16.R10', 'the table loaders store every entry of codes.xml / dataele.xml / maps.xml', r10_loaders_keep_every_entry, floor=3),
+    Rule('C16.R11', 'getnodebypath2 uses the element index for the element and the component index for the component', r11_designator_levels, floor=2),
 ]
